@@ -775,6 +775,8 @@ def r7_apply(src, log, map_kind="result"):
                         continue
                     if tj.text in "({[;,":
                         break
+                    if tj.text == ":" and toks[s[j - 1]].text != ":" and toks[s[j + 1]].text != ":":
+                        break      # struct-literal field initialiser / type ascription
                     if tj.text == "=" :
                         break
                     if tj.text == ">" and toks[s[j - 1]].text == "=":
